@@ -43,12 +43,18 @@ fn new_palette(first: u32) {
 #[kani::proof]
 #[kani::unwind(8)]
 #[kani::stub(alloc::fmt::format, crate::vklib::empty_format)]
+#[kani::stub(std::collections::HashMap::insert, crate::vklib::hm_insert)]
+#[kani::stub(crate::palette::ColorPalette::color, crate::vklib::side_color)]
+#[kani::stub(std::collections::HashMap::len, crate::vklib::hm_len)]
 fn c11_q_new_palette_from_0() {
     new_palette(0);
 }
 #[kani::proof]
 #[kani::unwind(8)]
 #[kani::stub(alloc::fmt::format, crate::vklib::empty_format)]
+#[kani::stub(std::collections::HashMap::insert, crate::vklib::hm_insert)]
+#[kani::stub(crate::palette::ColorPalette::color, crate::vklib::side_color)]
+#[kani::stub(std::collections::HashMap::len, crate::vklib::hm_len)]
 fn c11_t_new_palette_from_254() {
     new_palette(254);
 }
@@ -57,6 +63,9 @@ fn c11_t_new_palette_from_254() {
 #[kani::proof]
 #[kani::unwind(4)]
 #[kani::stub(alloc::fmt::format, crate::vklib::empty_format)]
+#[kani::stub(std::collections::HashMap::insert, crate::vklib::hm_insert)]
+#[kani::stub(crate::palette::ColorPalette::color, crate::vklib::side_color)]
+#[kani::stub(std::collections::HashMap::len, crate::vklib::hm_len)]
 fn c11_q_new_palette_bad_range() {
     let buf: [u8; 26] = kani::any();
     let first = rd32(&buf, 4);
@@ -71,6 +80,9 @@ fn c11_q_new_palette_bad_range() {
 /// 6-bit scaling: 0 -> 0, 63 -> 255, strictly monotone, >= 64 rejected
 #[kani::proof]
 #[kani::stub(alloc::fmt::format, crate::vklib::empty_format)]
+#[kani::stub(std::collections::HashMap::insert, crate::vklib::hm_insert)]
+#[kani::stub(crate::palette::ColorPalette::color, crate::vklib::side_color)]
+#[kani::stub(std::collections::HashMap::len, crate::vklib::hm_len)]
 fn c11_q_scale_6bit() {
     let a: u8 = kani::any();
     let b: u8 = kani::any();
@@ -140,26 +152,38 @@ fn legacy(kind11: bool, s0: u8, s1: u8) {
     core::mem::forget(p);
 }
 #[kani::proof]
-#[kani::unwind(8)]
+#[kani::unwind(11)]
 #[kani::stub(alloc::fmt::format, crate::vklib::empty_format)]
+#[kani::stub(std::collections::HashMap::insert, crate::vklib::hm_insert)]
+#[kani::stub(crate::palette::ColorPalette::color, crate::vklib::side_color)]
+#[kani::stub(std::collections::HashMap::len, crate::vklib::hm_len)]
 fn c11_q_legacy_04_skip_0_3() {
     legacy(false, 0, 3);
 }
 #[kani::proof]
-#[kani::unwind(8)]
+#[kani::unwind(11)]
 #[kani::stub(alloc::fmt::format, crate::vklib::empty_format)]
+#[kani::stub(std::collections::HashMap::insert, crate::vklib::hm_insert)]
+#[kani::stub(crate::palette::ColorPalette::color, crate::vklib::side_color)]
+#[kani::stub(std::collections::HashMap::len, crate::vklib::hm_len)]
 fn c11_q_legacy_11_skip_1_2() {
     legacy(true, 1, 2);
 }
 #[kani::proof]
-#[kani::unwind(8)]
+#[kani::unwind(11)]
 #[kani::stub(alloc::fmt::format, crate::vklib::empty_format)]
+#[kani::stub(std::collections::HashMap::insert, crate::vklib::hm_insert)]
+#[kani::stub(crate::palette::ColorPalette::color, crate::vklib::side_color)]
+#[kani::stub(std::collections::HashMap::len, crate::vklib::hm_len)]
 fn c11_t_legacy_04_overlapping() {
     legacy(false, 2, 1);
 }
 #[kani::proof]
-#[kani::unwind(8)]
+#[kani::unwind(11)]
 #[kani::stub(alloc::fmt::format, crate::vklib::empty_format)]
+#[kani::stub(std::collections::HashMap::insert, crate::vklib::hm_insert)]
+#[kani::stub(crate::palette::ColorPalette::color, crate::vklib::side_color)]
+#[kani::stub(std::collections::HashMap::len, crate::vklib::hm_len)]
 fn c11_t_legacy_11_skip_0_0() {
     legacy(true, 0, 0);
 }
@@ -181,18 +205,27 @@ fn legacy_count_zero(kind11: bool, skip: u8) {
 #[kani::proof]
 #[kani::unwind(5)]
 #[kani::stub(alloc::fmt::format, crate::vklib::empty_format)]
+#[kani::stub(std::collections::HashMap::insert, crate::vklib::hm_insert)]
+#[kani::stub(crate::palette::ColorPalette::color, crate::vklib::side_color)]
+#[kani::stub(std::collections::HashMap::len, crate::vklib::hm_len)]
 fn c11_q_legacy_04_count_zero_at_skip_2() {
     legacy_count_zero(false, 2);
 }
 #[kani::proof]
 #[kani::unwind(5)]
 #[kani::stub(alloc::fmt::format, crate::vklib::empty_format)]
+#[kani::stub(std::collections::HashMap::insert, crate::vklib::hm_insert)]
+#[kani::stub(crate::palette::ColorPalette::color, crate::vklib::side_color)]
+#[kani::stub(std::collections::HashMap::len, crate::vklib::hm_len)]
 fn c11_q_legacy_11_count_zero_at_skip_2() {
     legacy_count_zero(true, 2);
 }
 #[kani::proof]
 #[kani::unwind(5)]
 #[kani::stub(alloc::fmt::format, crate::vklib::empty_format)]
+#[kani::stub(std::collections::HashMap::insert, crate::vklib::hm_insert)]
+#[kani::stub(crate::palette::ColorPalette::color, crate::vklib::side_color)]
+#[kani::stub(std::collections::HashMap::len, crate::vklib::hm_len)]
 fn c11_t_legacy_04_count_zero_at_skip_0() {
     legacy_count_zero(false, 0);
 }
@@ -202,6 +235,9 @@ fn c11_t_legacy_04_count_zero_at_skip_0() {
 #[kani::proof]
 #[kani::unwind(6)]
 #[kani::stub(alloc::fmt::format, crate::vklib::empty_format)]
+#[kani::stub(std::collections::HashMap::insert, crate::vklib::hm_insert)]
+#[kani::stub(crate::palette::ColorPalette::color, crate::vklib::side_color)]
+#[kani::stub(std::collections::HashMap::len, crate::vklib::hm_len)]
 fn c11_q_indexed_pixels_need_palette_entries() {
     let px: [u8; 2] = kani::any();
     let tci: u8 = kani::any();
